@@ -145,3 +145,13 @@ CHECKS['C18'] = dict(
           'Every sequence of AddEntry / ReplaceEntry / DeleteEntry (one or two entries, entry with its own election id) / UpdateElectionID on a real fluent client in elected-primary and all-primary mode, observed through the real client\'s pending queue: '
           'ids 1,2,3,..., requested operation type, stamp = id most recently set when queued unless the entry has its own, and no queued operation is altered by a later call.'),
     note='No transport involved (operations are observed in the client before sending).')
+ENGINES.append({'name': 'suite-history-search', 'path': 'harness/compl + wire/ + rt/', 'serves_properties': ['C19'],
+     'kind_free_text': 'explicit-state search whose transitions are whole compliance tests on one long-lived reference server (real fluent client + real client + real server as threads of the controlled runtime, virtual time): closure over canonical server states, all ordered pairs, shuffle permutations; fault-wrapper catalogue'})
+CHECKS['C19'] = dict(
+    category='model_checking', engine='suite-history-search', design_ref='DESIGN.md §3 C19',
+    technique='explicit-state closure search over canonical server states with whole compliance tests as transitions + exhaustive ordered pairs + all shuffle permutations under the controlled runtime; fault-wrapper catalogue x designated tests',
+    text=('Order independence: from every reachable canonical state of one long-lived reference server (contents, held operations, counters, sessions, relation of the learnt election id to the suite counter) every eligible compliance test is run and must pass; '
+          'the reachable set closes (6 states), so every finite order passes by induction; independently every ordered pair of the 76 tests is run (quick: main configuration; thorough: all configurations), for starting election ids 1, 7 (thorough), 2^40 and the forward-reference-free server, '
+          'and the random-order test is run under every permutation. Sensitivity: 11 wrappers that break one protocol requirement at the gRIBI API (no FIB acks, stale-stamped operations acknowledged, idempotent delete failed, Get drops an entry / is stale, Flush no-op, '
+          'election id off by one, repeated parameters accepted, REPLACE of a missing entry acknowledged, unknown instance acknowledged, zero election id accepted): every test designated for the requirement must fail.'),
+    note='Default schedule per test (interleavings inside the client are C13/C14); timeouts are virtual: "waits forever" is the livelock verdict. Alternative network-instance names are exercised in thorough only. The designation table is in harness/compl/faulty.go with its justification.')
